@@ -8,9 +8,12 @@ def get_prop(pid):
     if pid in ("C01", "C07"):
         import p_mgr
         return p_mgr.MgrProp(pid)
-    if pid in ("C12", "C03"):
+    if pid == "C12":
         import p_grid
         return p_grid.MoveProp(pid)
+    if pid == "C03":
+        import p_c03
+        return p_c03.C03Prop()
     if pid == "C16":
         import p_trainer
         return p_trainer.TrainerProp()
